@@ -889,11 +889,11 @@ func TestHarness(t *testing.T) {
 			}
 			if p := progress.Load(); p != last {
 				last, lastChange = p, time.Now()
-			} else if time.Since(lastChange) > 60*time.Second {
+			} else if time.Since(lastChange) > hx.StallLimit(60*time.Second) {
 				ops, _ := currentHistory.Load().([]string)
 				res.Report(hx.Finding{Kind: "violation", Property: "C07", History: ops,
 					Name: "C07 monitor: every segment of the store terminates",
-					What: "the implementation did not reach the end of a segment within 60 s of real time (blocked outside any channel wait, e.g. on its mutex)",
+					What: "the implementation did not reach the end of a segment within the load-scaled stall limit (at least 240 s of real time) (blocked outside any channel wait, e.g. on its mutex)",
 					Sig:  hx.Sig("C07", "protostore", "hang")})
 				res.ModelLines = drv.Lines
 				res.Write(o)
